@@ -66,7 +66,9 @@ Section Machine.
     our_ready : bool;      (* AwaitingChannelReadyFlags::OUR_CHANNEL_READY *)
     their_ready : bool;    (* AwaitingChannelReadyFlags::THEIR_CHANNEL_READY *)
     wfb : bool;            (* AwaitingChannelReadyFlags::WAITING_FOR_BATCH *)
-    sec1 : option secret
+    sec1 : option secret;
+    pending_ready : option point   (* context.workaround_lnd_bug_4006: a channel_ready that arrived
+                                      while we still needed a channel_reestablish *)
   }.
 
   Record st : Type := mkSt {
@@ -90,7 +92,7 @@ Section Machine.
       as [counterparty_next_commitment_point] until the peer's channel_ready shifts it. *)
   Definition init (batch : bool) (p0 : point) : st :=
     mkSt (INITIAL - 1) (INITIAL - 1) false false false false false false None (Some p0) false
-         (mkHs false false false batch None).
+         (mkHs false false false batch None None).
   Definition init_log (p0 : point) : list ev := [Announce INITIAL p0].
 
   Inductive op : Type :=
@@ -120,6 +122,9 @@ Section Machine.
   | OBatchReady
   (** [peer_disconnected] (also what a reload does to the channel). *)
   | ODisconnect
+  (** The node is restarted from its serialized ChannelManager: like a disconnection, and the
+      unserialized [workaround_lnd_bug_4006] is forgotten. *)
+  | OReload
   (** A channel_reestablish from the peer. *)
   | ORecvReest (next_local next_remote : Z) (sec : sec_class)
   (** The user force-closes, or the ChannelManager closes on load because it is stale w.r.t. the
@@ -165,7 +170,9 @@ Section Machine.
   Definition close (s : st) (evs : list ev) : st * list ev :=
     (mkSt (holder_next s) (cp_next s) (awaiting_rr s) (disconnected s) (mon_in_progress s)
           (mp_raa s) (mp_cs s) (raa_first s) (cp_cur_point s) (cp_next_point s) true (hsk s),
-     evs ++ [SignHolder (holder_next s + 1)]).
+     (* [is_funding_broadcastable]: a batch-funded channel still WAITING_FOR_BATCH has no funding
+        transaction on the wire, so nothing is signed or broadcast *)
+     if chan_ready (hsk s) || negb (wfb (hsk s)) then evs ++ [SignHolder (holder_next s + 1)] else evs).
 
 
   Definition set_mp_raa (s : st) (b : bool) : st :=
@@ -202,7 +209,10 @@ Section Machine.
   (** [FundedChannel::channel_ready] *)
   Definition recv_channel_ready (s : st) (p : point) : st * list ev :=
     let h := hsk s in
-    if disconnected s then (s, [])   (* ChannelError::Ignore (workaround_lnd_bug_4006) *)
+    if disconnected s then
+      (* ChannelError::Ignore; the message is kept (workaround_lnd_bug_4006) and handled right
+         after the next successful channel_reestablish *)
+      (set_hs s (mkHs (chan_ready h) (our_ready h) (their_ready h) (wfb h) (sec1 h) (Some p)), [])
     else
       (* the [match &self.context.channel_state]: [inl] = check_reconnection, [inr h'] = carry on
          with the new flags *)
@@ -213,10 +223,10 @@ Section Machine.
           if their_ready h && negb (our_ready h) then (true, h)
           (* [flags.clone().clear(WAITING_FOR_BATCH).is_empty()] *)
           else if negb (their_ready h) && negb (our_ready h)
-          then (false, mkHs false false true (wfb h) (sec1 h))
+          then (false, mkHs false false true (wfb h) (sec1 h) (pending_ready h))
           (* [flags == OUR_CHANNEL_READY] *)
           else if our_ready h && negb (their_ready h) && negb (wfb h)
-          then (false, mkHs true false false false (sec1 h))
+          then (false, mkHs true false false false (sec1 h) (pending_ready h))
           else (false, h) in
       if fst decision then
         let expected :=
@@ -228,6 +238,55 @@ Section Machine.
         (mkSt (holder_next s) (cp_next s) (awaiting_rr s) (disconnected s) (mon_in_progress s)
               (mp_raa s) (mp_cs s) (raa_first s) (cp_next_point s) (Some p) (closed s) (snd decision),
          [Announce (cp_next s) p]).
+
+  (** [FundedChannel::channel_reestablish] *)
+  Definition reest_core (s : st) (nl nr : Z) (sec : sec_class) : st * list ev :=
+    let secret_ok := match sec with SecMatch => true | _ => false end in
+    (* the two numbers are u64 on the wire *)
+    if (nl <? 0) || (nr <? 0) then (s, [])
+    else if negb (disconnected s) then close s []
+    else if (nl =? 0) || (INITIAL <=? nl) || (INITIAL <=? nr) then close s []
+    else if (0 <? nr) && match sec with SecGarbage => true | _ => false end then close s []
+    else
+      let our := INITIAL - (holder_next s + 1) in
+      (* "we have fallen behind": with a valid proof the node panics (and must not
+         broadcast); with an invalid one it closes. *)
+      if (0 <? nr) && (our <? nr) then
+        (if secret_ok
+         then (mkSt (holder_next s) (cp_next s) (awaiting_rr s) (disconnected s)
+                    (mon_in_progress s) (mp_raa s) (mp_cs s) (raa_first s)
+                    (cp_cur_point s) (cp_next_point s) true (hsk s), [])
+         else close s [])
+      else if (0 <? nr) && ((nr =? our) || (nr + 1 =? our)) && negb secret_ok then close s []
+      else if nr + 1 <? our then (s, [])   (* ChannelError::Warn *)
+      else
+        (* clear_peer_disconnected *)
+        let s0 := mkSt (holder_next s) (cp_next s) (awaiting_rr s) false (mon_in_progress s)
+                       (mp_raa s) (mp_cs s) (raa_first s) (cp_cur_point s) (cp_next_point s)
+                       (closed s) (hsk s) in
+        if negb (chan_ready (hsk s)) then
+          (* AwaitingChannelReady: nothing to retransmit but (possibly) our channel_ready *)
+          (if (negb (our_ready (hsk s)) || mon_in_progress s) && negb (nr =? 0) then close s0 [] else (s0, []))
+        else
+        match reest_revoke s0 nr our with
+        | None => close s0 []
+        | Some (s1, raa_evs) => reest_commit s1 raa_evs nl
+        end.
+
+  (** [ChannelManager::internal_channel_reestablish]: after a successful reestablish, a channel_ready
+      kept by the lnd workaround is handled ([need_lnd_workaround]). *)
+  Definition reest_with_replay (s : st) (nl nr : Z) (sec : sec_class) : st * list ev :=
+    let '(s1, evs) := reest_core s nl nr sec in
+    if closed s1 || disconnected s1 then (s1, evs)
+    else
+      match pending_ready (hsk s1) with
+      | None => (s1, evs)
+      | Some p =>
+          let h := hsk s1 in
+          let '(s2, evs2) := recv_channel_ready
+                               (set_hs s1 (mkHs (chan_ready h) (our_ready h) (their_ready h) (wfb h) (sec1 h) None)) p in
+          (s2, evs ++ evs2)
+      end.
 
   Definition step (s : st) (o : op) : st * list ev :=
     if closed s then
@@ -276,7 +335,7 @@ Section Machine.
                            (mon_in_progress s) (mp_raa s) (mp_cs s) (raa_first s)
                            (cp_next_point s) (Some next_point) (closed s)
                            (if cp_next s + 1 =? INITIAL - 1
-                            then mkHs (chan_ready (hsk s)) (our_ready (hsk s)) (their_ready (hsk s)) (wfb (hsk s)) (Some sec)
+                            then mkHs (chan_ready (hsk s)) (our_ready (hsk s)) (their_ready (hsk s)) (wfb (hsk s)) (Some sec) (pending_ready (hsk s))
                             else hsk s) in
             let s2 := if commit then build_commitment s1 else s1 in
             maybe_restore sync (upd_mon s2 false commit) evs
@@ -288,48 +347,22 @@ Section Machine.
         let h := hsk s in
         if chan_ready h then (s, [])
         else if negb (our_ready h) && negb (their_ready h) && negb (wfb h)
-        then (set_hs s (mkHs false true false false (sec1 h)), [])       (* set_our_channel_ready *)
+        then (set_hs s (mkHs false true false false (sec1 h) (pending_ready h)), [])       (* set_our_channel_ready *)
         else if negb (our_ready h) && their_ready h && negb (wfb h)
-        then (set_hs s (mkHs true false false false (sec1 h)), [])       (* -> ChannelReady *)
+        then (set_hs s (mkHs true false false false (sec1 h) (pending_ready h)), [])       (* -> ChannelReady *)
         else (s, [])
     | OBatchReady =>
         let h := hsk s in
-        (set_hs s (mkHs (chan_ready h) (our_ready h) (their_ready h) false (sec1 h)), [])
+        (set_hs s (mkHs (chan_ready h) (our_ready h) (their_ready h) false (sec1 h) (pending_ready h)), [])
     | ODisconnect =>
         (mkSt (holder_next s) (cp_next s) (awaiting_rr s) true (mon_in_progress s)
               (mp_raa s) (mp_cs s) (raa_first s) (cp_cur_point s) (cp_next_point s) (closed s) (hsk s), [])
-    | ORecvReest nl nr sec =>
-        let secret_ok := match sec with SecMatch => true | _ => false end in
-        (* the two numbers are u64 on the wire *)
-        if (nl <? 0) || (nr <? 0) then (s, [])
-        else if negb (disconnected s) then close s []
-        else if (nl =? 0) || (INITIAL <=? nl) || (INITIAL <=? nr) then close s []
-        else if (0 <? nr) && match sec with SecGarbage => true | _ => false end then close s []
-        else
-          let our := INITIAL - (holder_next s + 1) in
-          (* "we have fallen behind": with a valid proof the node panics (and must not
-             broadcast); with an invalid one it closes. *)
-          if (0 <? nr) && (our <? nr) then
-            (if secret_ok
-             then (mkSt (holder_next s) (cp_next s) (awaiting_rr s) (disconnected s)
-                        (mon_in_progress s) (mp_raa s) (mp_cs s) (raa_first s)
-                        (cp_cur_point s) (cp_next_point s) true (hsk s), [])
-             else close s [])
-          else if (0 <? nr) && ((nr =? our) || (nr + 1 =? our)) && negb secret_ok then close s []
-          else if nr + 1 <? our then (s, [])   (* ChannelError::Warn *)
-          else
-            (* clear_peer_disconnected *)
-            let s0 := mkSt (holder_next s) (cp_next s) (awaiting_rr s) false (mon_in_progress s)
-                           (mp_raa s) (mp_cs s) (raa_first s) (cp_cur_point s) (cp_next_point s)
-                           (closed s) (hsk s) in
-            if negb (chan_ready (hsk s)) then
-              (* AwaitingChannelReady: nothing to retransmit but (possibly) our channel_ready *)
-              (if (negb (our_ready (hsk s)) || mon_in_progress s) && negb (nr =? 0) then close s0 [] else (s0, []))
-            else
-            match reest_revoke s0 nr our with
-            | None => close s0 []
-            | Some (s1, raa_evs) => reest_commit s1 raa_evs nl
-            end
+    | OReload =>
+        let h := hsk s in
+        (mkSt (holder_next s) (cp_next s) (awaiting_rr s) true (mon_in_progress s)
+              (mp_raa s) (mp_cs s) (raa_first s) (cp_cur_point s) (cp_next_point s) (closed s)
+              (mkHs (chan_ready h) (our_ready h) (their_ready h) (wfb h) (sec1 h) None), [])
+    | ORecvReest nl nr sec => reest_with_replay s nl nr sec
     | OForceClose => close s []
     | OChainClose =>
         (mkSt (holder_next s) (cp_next s) (awaiting_rr s) (disconnected s) (mon_in_progress s)
@@ -432,11 +465,12 @@ Arguments cp_cur_point {secret point} s.
 Arguments cp_next_point {secret point} s.
 Arguments closed {secret point} s.
 Arguments hsk {secret point} s.
-Arguments chan_ready {secret} h.
-Arguments our_ready {secret} h.
-Arguments their_ready {secret} h.
-Arguments wfb {secret} h.
-Arguments sec1 {secret} h.
+Arguments chan_ready {secret point} h.
+Arguments our_ready {secret point} h.
+Arguments their_ready {secret point} h.
+Arguments wfb {secret point} h.
+Arguments sec1 {secret point} h.
+Arguments pending_ready {secret point} h.
 Arguments p_vh {point} p.
 Arguments p_rv {point} p.
 Arguments p_st {point} p.
@@ -451,6 +485,7 @@ Arguments ORecvChannelReady {secret point} p.
 Arguments OOurChannelReady {secret point}.
 Arguments OBatchReady {secret point}.
 Arguments ODisconnect {secret point}.
+Arguments OReload {secret point}.
 Arguments ORecvReest {secret point} next_local next_remote sec.
 Arguments OForceClose {secret point}.
 Arguments OChainClose {secret point}.
